@@ -19,7 +19,8 @@ RULE = ("pop-on programs of 1-4 captions from the C05 model with emphasis on lay
         "clock in Fractions: word i of a line is sent at timecode + i frames (1/30 s or "
         "1001/30000 s). Also the same program read with ';' and ':' timecodes must give "
         "instants in ratio 1000:1001. Non-trivial: EOC not at word 0 and (>= 2 captions or "
-        "offset != 0 or an EDM within 12 frames of the next EOC).")
+        "offset != 0 or an EDM within 12 frames of the next EOC). "
+        'The SCCReader object is fresh or has a past (see C05). ')
 ASSUMPTIONS = [
     "tolerance 0.01 us against the exact clock (the reader computes in floats)",
     "a gap of <= 5 frames between an erase and the next caption is closed, >= 6 frames is "
